@@ -197,6 +197,11 @@ def gen_c11(rng, n, rules):
             pr = dict(getattr(gen, shape + 'profile')(rng))
             pr['undeclared'] = []
             pr['eqlines'] = []
+        if pr['withdrawn'] and i % 4 == 0:
+            # as few ballots as a valid election may have: one per candidate still standing
+            elig = [c for c in range(1, pr['nc'] + 1) if c not in pr['withdrawn']]
+            pr['lines'] = [(1, [c] + rng.sample([x for x in range(1, pr['nc'] + 1) if x != c], rng.randint(0, pr['nc'] - 1))) for c in elig]
+            pr['seats'] = min(pr['seats'], len(elig))
         base = drive.mkblt(**pr)
         pr3, pmap, names3 = permuted(rng, pr)
         permd = drive.mkblt(**pr3)     # names are c<newid>: the harness parses subjects from names, the map carries identity
@@ -211,13 +216,18 @@ def gen_c11(rng, n, rules):
                 cfgs = cfgs + [(dict(rule='wigm', arithmetic='fixed', precision=3, defeat_batch='zero'), None)]
             for opts, lp in cfgs:
                 A, B = run2(base, opts, lp, permd, opts, lp)
+                if (A['outcome'] == 'reject') != (B['outcome'] == 'reject'):
+                    out.append(('reject-mismatch', (base, permd, opts, A['exc'], B['exc'])))
+                if pr4 is not None:
+                    C = drive.run_count(deld, opts, lowprec=lp, keepE=True)
+                    if (A['outcome'] == 'reject') != (C['outcome'] == 'reject'):
+                        # an election with a withdrawn candidate is accepted exactly when the election without him is
+                        out.append(('reject-mismatch', (base, deld, opts, A['exc'], C['exc'])))
+                    elif C['outcome'] != 'reject':
+                        out.append((mkpair('C11b', A, C, nmap=dmap), (base, deld, opts, lp)))
                 if A['outcome'] == 'reject' or B['outcome'] == 'reject':
                     continue
                 out.append((mkpair('C11a', A, B, nmap=pmap), (base, permd, opts, lp)))
-                if pr4 is not None:
-                    C = drive.run_count(deld, opts, lowprec=lp, keepE=True)
-                    if C['outcome'] != 'reject':
-                        out.append((mkpair('C11b', A, C, nmap=dmap), (base, deld, opts, lp)))
     return out
 
 
